@@ -8,7 +8,7 @@ from vf.ob import obligation, shard, finding_open
 from tartiflette import TartifletteError
 
 META = {
-    "bounds": "2-3 requests in flight on one engine (same and different documents from a pool of 5, per-request variables/context: unbounded ints, Booleans), <= 2 gated resolvers "
+    "bounds": "2-3 requests in flight on one engine (same and different documents from a pool of 8 incl. two refused ones, per-request variables/context: unbounded ints, Booleans), <= 2 gated resolvers "
               "per request, every completion order across the requests (<= 90), per-request fault selector; then a probe request compared with a never-shared engine",
     "outside": "more than 3 concurrent requests; more than 2 suspending resolvers per request",
     "explanation": "Each response of the concurrent run must equal the response of the same request run alone (FIFO) on the same engine; the shared cached document and the schema must stay read-only.",
@@ -68,7 +68,10 @@ POOL = [
     ("{ mid { leaf { n } } nn whoami }", [("mid", "leaf", "n"), ("nn",)]),
     ("query A($v: Int) { echoInt(v: $v) } query B { whoami }", [("echoInt",), ("whoami",)]),
     ("{ nope whoami }", []),                                   # refused by validation: the errors live with the cached document
+    ("{ ...UF } fragment UF on Query { n ...EX } fragment EX on Query { nn ...UF }", []),        # refused: fragment cycle
+    ("{ mid { n } ...UF } fragment UF on Query { ...EX whoami } fragment EX on Query { nn }", [("nn",)]),   # valid, same fragment names as the cyclic one
 ]
+REFUSED_DOCS = (5, 6)
 LEAF = {"n": 3}
 MID = {"n": 2, "leaf": LEAF, "leaves": [LEAF, {"n": 4}]}
 DATA = {"n": 1, "nn": 4, "mid": MID, "mids": [MID, {"n": 5, "leaves": []}]}
@@ -93,7 +96,7 @@ def request(i, doc, v, s, fault, opsel, ng=2):
     op = None
     if doc == 4:
         op = "A" if opsel else "B"
-    if doc == 5:
+    if doc in REFUSED_DOCS:
         variables = {}
     elif doc in (0, 4):
         variables = {"v": v}
@@ -128,7 +131,7 @@ def is_f7(faults):
     return sum(1 for f in faults if f == 3) >= 2
 
 
-PAIRS = [(0, 0), (1, 1), (2, 2), (0, 3), (4, 4), (1, 3), (2, 1), (3, 3), (5, 5), (5, 0)]     # (3, 3): byte-identical requests that differ only by their context
+PAIRS = [(0, 0), (1, 1), (2, 2), (0, 3), (4, 4), (1, 3), (2, 1), (3, 3), (5, 5), (5, 0), (6, 7), (7, 6)]     # (3, 3): byte-identical requests that differ only by their context
 TRIPLES = [(0, 0, 3), (1, 1, 1), (4, 0, 1)]
 
 
@@ -136,7 +139,7 @@ FAULTS = [(0, 0), (1, 0), (2, 1), (0, 2), (3, 0), (3, 3)]
 SH15 = [{"docs": list(p), "f": list(f), "ng": ng} for ng in (1, 2) for p in PAIRS for f in FAULTS] + [{"docs": list(t), "f": list(f), "ng": 1} for t in TRIPLES for f in FAULTS[:3]]
 # the same on an engine that coerces lists and parents sequentially (documents with lists)
 SH15 += [{"docs": list(p), "f": list(f), "ng": 1, "seq": True} for p in ((2, 2), (2, 1), (1, 3), (2, 0)) for f in ((0, 0), (1, 0))]
-QUICK15 = [i for i, s in enumerate(SH15) if s.get("seq") and s["f"] == [0, 0] and s["docs"] in ([2, 2], [2, 1])] + [i for i, s in enumerate(SH15) if not s.get("seq") and s["ng"] == 1 and len(s["docs"]) == 2 and ((s["f"] == [0, 0] and s["docs"] in ([0, 0], [1, 1], [2, 2], [4, 4], [0, 3], [3, 3], [5, 5], [5, 0])) or (s["docs"] == [0, 3] and s["f"] in ([2, 1], [3, 3])) or (s["docs"] == [1, 3] and s["f"] == [1, 0]))]
+QUICK15 = [i for i, s in enumerate(SH15) if s.get("seq") and s["f"] == [0, 0] and s["docs"] in ([2, 2], [2, 1])] + [i for i, s in enumerate(SH15) if not s.get("seq") and s["ng"] == 1 and len(s["docs"]) == 2 and ((s["f"] == [0, 0] and s["docs"] in ([0, 0], [1, 1], [2, 2], [4, 4], [0, 3], [3, 3], [5, 5], [5, 0], [6, 7], [7, 6])) or (s["docs"] == [0, 3] and s["f"] in ([2, 1], [3, 3])) or (s["docs"] == [1, 3] and s["f"] == [1, 0]))]
 
 
 @obligation(tier="quick", timeout=300, thorough_timeout=1500, shards=SH15, quick_shards=QUICK15,
@@ -181,6 +184,13 @@ def c15_concurrent(c0: int, c1: int, c2: int, c3: int, c4: int, c5: int, v0: int
         observe(("solo", i, solo))
         if not ok2 or norm(got[i]) != norm(solo):
             return verdict(False)
+        # independent of any engine run: a refused document answers errors only; a valid one without an injected failure answers data and no errors
+        if docs[i] in REFUSED_DOCS:
+            if got[i].get("data") is not None or not got[i].get("errors"):
+                return verdict(False)
+        elif not req[2]["faults"] and not (docs[i] in (0, 4) and not (-2 ** 31 <= vs[i] < 2 ** 31)):
+            if got[i].get("data") is None or got[i].get("errors"):
+                return verdict(False)
         # an injected failure is reported at its own position, in its own request
         for fp in req[2]["faults"]:
             ran = any(e[0] == req[2]["id"] and e[1] == fp for e in runlog)
